@@ -231,9 +231,17 @@ type Case struct {
 	specOff      bool // spec comparison no longer meaningful (after a compaction or a reported difference)
 	removedMsgs  []removedMsg
 	roundLowered bool
-	c02          bool // evaluate the C02 certificate oracle after every controller op
+	c02          bool           // evaluate the C02 certificate oracle after every controller op
+	sigSeen      map[string]int // signature bytes + signer list of valid delivered messages -> mid (abs.go, `sigof=`)
+	c07          bool           // evaluate the step-level liveness oracles (c07.go)
+	armedH       uint64         // the single round timer of the operator: armed for (armedH, armedR), not yet fired
+	armedR       uint64
+	armedOK      bool
+	stepViols    []violation
+	sentProps    map[propKey]bool
+	refused      []refusedProp
 	nf           string // network fault ("a" | "b") to inject into the next op's broadcast
-	role         int  // 2 = controller of the second duty role of a multi-node schedule (crossrole.go)
+	role         int    // 2 = controller of the second duty role of a multi-node schedule (crossrole.go)
 	roundBefore  specqbft.Round
 	lastRet      *specqbft.SignedMessage
 	tags         []string // distribution tags collected while the case ran
